@@ -153,10 +153,29 @@ func isZeroConst(v constant.Value) bool {
 // knownCond evaluates a condition over neutral option fields and constants.
 func (c *Ctx) knownCond(f *core.Func, cond ast.Expr) (val, known bool) {
 	nf := c.neutralFields()
+	info := f.Info()
+	// a method that the module only ever runs on a zero value: its receiver's fields are zero
+	if root := f.Root(); c.zeroReceiver(root) && len(root.Decl.Recv.List[0].Names) == 1 {
+		recv := info.Defs[root.Decl.Recv.List[0].Names[0]]
+		ext := map[*types.Var]bool{}
+		for v := range nf {
+			ext[v] = true
+		}
+		ast.Inspect(cond, func(n ast.Node) bool {
+			if se, ok := n.(*ast.SelectorExpr); ok {
+				if id, isID := ast.Unparen(se.X).(*ast.Ident); isID && info.Uses[id] == recv && recv != nil {
+					if v := core.FieldOf(info, se); v != nil {
+						ext[v] = true
+					}
+				}
+			}
+			return true
+		})
+		nf = ext
+	}
 	if len(nf) == 0 {
 		return false, false
 	}
-	info := f.Info()
 	var eval func(e ast.Expr) constant.Value
 	eval = func(e ast.Expr) constant.Value {
 		e = ast.Unparen(e)
